@@ -42,6 +42,8 @@ type SEnv struct {
 	depth   int
 	bound   map[string]bool // quantifier-bound names shadow locals
 	pre     func(name string) *SVal
+	rangeSeen map[int]string     // range-call ordinal -> seen-set term (only while its invariants are evaluated)
+	rangeKeyT map[int]types.Type
 }
 
 func (fr *Frame) newSpecEnv(h, old Heap) *SEnv {
@@ -407,7 +409,7 @@ func (e *SEnv) ident(x *SX) *SVal {
 		return &SVal{Ghost: gh}
 	}
 	switch x.Tok {
-	case "len", "cap", "old", "has", "seen", "received", "sent", "sentcount", "elems", "mapof", "typeis", "str_eq_bytes", "allocated", "fresh", "tagof", "card", "bytes_eq", "ptr":
+	case "len", "cap", "old", "has", "seen", "rseen", "closedcount", "recvcount", "wlocked", "rlocked", "lockcount", "received", "sent", "sentcount", "elems", "mapof", "typeis", "str_eq_bytes", "allocated", "fresh", "tagof", "card", "bytes_eq", "ptr":
 		return &SVal{Bin: x.Tok}
 	}
 	if e.pkg != nil {
@@ -1104,6 +1106,44 @@ func (e *SEnv) builtinSpec(name string, args []*SX, x *SX) *SVal {
 		k := e.coerceTo(e.tr(args[1]), mt.Key())
 		sn := e.fr.seenName(r)
 		return boolVal(fmt.Sprintf("(select %s %s)", g.heapArr(e.heap, sn, g.heapSort[sn]), k.V.T))
+	case "rseen": // rseen(K, k): key k was already passed to the callback of the K-th Range(func...) call
+		kc := e.tr(args[0])
+		if kc.Const == nil {
+			e.fail("rseen(K, key): K must be a constant ordinal")
+		}
+		ord := int(kc.Const.Int64())
+		st, ok := e.rangeSeen[ord]
+		if !ok {
+			e.fail("rseen(%d, ..) is only meaningful in the invariants of range call %d", ord, ord)
+		}
+		k := e.coerceTo(e.tr(args[1]), e.rangeKeyT[ord])
+		return boolVal(fmt.Sprintf("(select %s %s)", st, k.V.T))
+	case "wlocked", "rlocked", "lockcount": // lock ghosts of this thread, by mutex address
+		v := e.tr(args[0])
+		mu := e.refTerm(v)
+		switch name {
+		case "wlocked":
+			return boolVal(e.fr.lockHeld(mu, e.heap, true))
+		case "rlocked":
+			rn, rs := g.lockArr("R")
+			return boolVal(fmt.Sprintf("(select %s %s)", g.heapArr(e.heap, rn, rs), mu))
+		}
+		cn, cs := g.lockArr("N")
+		return &SVal{V: &Val{T: fmt.Sprintf("(select %s %s)", g.heapArr(e.heap, cn, cs), mu)}, T: intT}
+	case "recvcount": // recvcount(ch): number of receives from ch completed so far (ghost)
+		c := e.tr(args[0])
+		if _, ok := c.T.Underlying().(*types.Chan); !ok {
+			e.fail("recvcount() on %s", c.T)
+		}
+		cn, cs := g.rcvCountName()
+		return &SVal{V: &Val{T: fmt.Sprintf("(select %s %s)", g.heapArr(e.heap, cn, cs), c.V.T)}, T: intT}
+	case "closedcount": // closedcount(ch): number of close(ch) executed so far (ghost)
+		c := e.tr(args[0])
+		if _, ok := c.T.Underlying().(*types.Chan); !ok {
+			e.fail("closedcount() on %s", c.T)
+		}
+		cn, cs := g.closedName()
+		return &SVal{V: &Val{T: fmt.Sprintf("(select %s %s)", g.heapArr(e.heap, cn, cs), c.V.T)}, T: intT}
 	case "typeis": // typeis(iface, T)
 		v := e.tr(args[0])
 		tt := e.resolveType(strings.ReplaceAll(args[1].String(), " ", ""))
@@ -1218,10 +1258,29 @@ func (e *SEnv) havocTarget(m *SX, nh Heap) Heap {
 			if gh, ok := g.P.Contracts.Ghosts[m.Args[0].Tok]; ok {
 				name, srt, pts, rt := e.ghostName(gh)
 				cur := g.heapArr(nh, name, srt)
-				if len(m.Args)-1 != len(pts) {
+				if len(m.Args)-1 > len(pts) || len(m.Args) == 1 {
 					// whole ghost heap
 					nh2 := nh.clone()
 					nh2[name] = g.fresh(name, srt)
+					return nh2
+				}
+				if len(m.Args)-1 < len(pts) {
+					// key prefix: everything below the given keys (e.g. smHas(n.processes): every key of that map)
+					var keys []string
+					for i, a := range m.Args[1:] {
+						v := e.coerceTo(e.tr(a), pts[i])
+						t := v.V.T
+						if t == "" && v.V.A != nil {
+							t = g.ptrTerm(v.V.A)
+						}
+						keys = append(keys, t)
+					}
+					inner := g.sortOf(rt)
+					for i := len(pts) - 1; i >= len(keys); i-- {
+						inner = "(Array " + g.sortOf(pts[i]) + " " + inner + ")"
+					}
+					nh2 := nh.clone()
+					nh2[name] = g.define(name, srt, nestedStore(cur, keys, g.fresh("mod$ghostsub", inner)))
 					return nh2
 				}
 				var keys []string
